@@ -19,7 +19,8 @@ EXPLANATION = (
     'afterwards unless requested, offset counted over yielded entries only, nothing read once the limit is reached; '
     'value_is_empty and Record::is_empty test the hash against Hash::EMPTY, KeyFilter/AuthorFilter::matches have the '
     'documented meaning; (R6) RecordsByKeyRange::next_filtered evaluated on short index sequences: an index id whose record'
-    ' is gone is skipped and the scan continues, a rejected id is not looked up, errors are reported. NOT decided: exact '
+    ' is gone is skipped and the scan continues, a rejected id is not looked up, errors are reported; (R7) the index writer: entry_put evaluated on {author unknown, newer, equal, older than the head} x '
+    '{live entry, deletion marker} writes the (namespace, key, author) index row for every entry (shared with C18.R2). NOT decided: exact '
     'result sets for all states.'
 )
 ASSUMPTIONS = ["redb range iteration order = tuple key order", "tables identified by type"]
@@ -529,6 +530,28 @@ def r6(ctx):
     ctx.floor("C05.R6", 9)
 
 
+def r7(ctx):
+    """the writer of the key-ordered index: entry_put evaluated (shared with C18.R2) - every stored entry, deletion markers
+    included, gets its (namespace, key, author) index row, or the key-ordered access path answers differently from the
+    author-ordered one"""
+    from . import C18
+    sub = type(ctx)(ctx.prop, ctx.tier, ctx.facts, ctx.cfg)
+    C18.r2(sub)
+    n = 0
+    for o in sub.obligations:
+        if "entry_put[" not in o["key"]:
+            continue
+        o = dict(o)
+        o["key"] = o["key"].replace("C18.R2", "C05.R7")
+        o["rule"] = "C05.R7"
+        ctx.obligations.append(o)
+        n += 1
+        if o["status"] != "holds":
+            ctx.violations.append(o)
+    ctx.analysed_bodies |= sub.analysed_bodies
+    ctx.floor("C05.R7", 7)
+
+
 def run(ctx):
     ctx.run_rule("C05.R1", r1)
     ctx.run_rule("C05.R2", r2)
@@ -536,3 +559,4 @@ def run(ctx):
     ctx.run_rule("C05.R4", r4)
     ctx.run_rule("C05.R5", r5)
     ctx.run_rule("C05.R6", r6)
+    ctx.run_rule("C05.R7", r7)
